@@ -98,6 +98,18 @@ func checkFromString(s string) (string, error) {
 		}
 		return class, nil
 	}
+	// a refusal that makes a claim about the number must be true of the number, whatever the notation
+	switch err {
+	case droplet.ErrTooLarge:
+		if fits || !exactInt && dr.Cmp(new(big.Rat).SetInt(maxI64)) <= 0 && val.Sign() >= 0 {
+			return class, fmt.Errorf("FromString(%q) says the value is too large, but %s coins = %s droplets is within the 63-bit range", s, val.RatString(), dr.RatString())
+		}
+	case droplet.ErrNegativeValue:
+		if val.Sign() >= 0 {
+			return class, fmt.Errorf("FromString(%q) says the value is negative, it is %s", s, val.RatString())
+		}
+	}
+	// (ErrTooManyDecimals is a statement about the text, e.g. "100e-8" is written with eight places; it is not judged here)
 	// completeness for the unambiguous notation: plain decimal, <= 6 fraction digits, fits
 	if plainRe.MatchString(s) && fits {
 		frac := ""
@@ -117,8 +129,22 @@ func digitsGen(min, max int) *rapid.Generator[string] {
 
 func genAmountString() *rapid.Generator[string] {
 	return rapid.Custom(func(t *rapid.T) string {
-		mode := rapid.IntRange(0, 9).Draw(t, "mode")
+		mode := rapid.IntRange(0, 11).Draw(t, "mode")
 		switch mode {
+		case 10, 11: // a short mantissa times a power of ten, written with an exponent: values up to and just beyond 2^63-1 droplets
+			d := rapid.Uint64Range(1, 999).Draw(t, "mant")
+			z := rapid.IntRange(0, 19).Draw(t, "zeros") // droplets = d * 10^z
+			e := z - 6                                   // coins = d * 10^(z-6)
+			form := rapid.IntRange(0, 2).Draw(t, "form")
+			switch form {
+			case 0:
+				return fmt.Sprintf("%de%d", d, e)
+			case 1:
+				return fmt.Sprintf("%dE+%d", d, e+0)
+			default: // 0.d e(e+len)
+				ds := strconv.FormatUint(d, 10)
+				return fmt.Sprintf("0.%se%d", ds, e+len(ds))
+			}
 		case 0: // plain representable
 			n := genU64().Draw(t, "n") >> rapid.UintRange(0, 40).Draw(t, "sh")
 			s := fmt.Sprintf("%d.%06d", n/1e6, n%1e6)
